@@ -158,4 +158,46 @@ example : hasZeroBy [([], sq4)] [I 1 3] [I (15/8) (17/8)] [0] [2] = true := by d
 
 end Examples
 
+/-! ### the rules evaluated with exact rational interval arithmetic -/
+
+/-- **all the zeros kept** (square system), exact uniqueness certificate on the input box: EVERY real zero of
+    the input box is in the output box -/
+theorem keptAllByX_sound {eqs : List (List Dag × Dag)} {i o : Box} {z : List ℚ}
+    (h : keptAllByX eqs i o z = true) : ∀ p, Box.Mem p i → Zero eqs p → Box.Mem p o := by
+  simp only [keptAllByX, Bool.and_eq_true] at h
+  obtain ⟨⟨⟨hu, hz⟩, hzi⟩, hzo⟩ := h
+  intro p hp hp0
+  have := unique_zero_squareX hu hp (ratIn_iff.1 hzi) hp0 (ratZero_sound hz)
+  rw [this]
+  exact ratIn_iff.1 hzo
+
+/-- **a feasibility claim certified** with the exact Krawczyk certificate: the box `s` contains a real zero -/
+theorem hasZeroByX_sound {eqs : List (List Dag × Dag)} {s x : Box} {vars : List ℕ} {w : List ℚ}
+    (h : hasZeroByX eqs s x vars w = true) : ∃ p, Box.Mem p s ∧ Zero eqs p := by
+  simp only [hasZeroByX, Bool.and_eq_true] at h
+  obtain ⟨⟨⟨hpc, hsub⟩, hex⟩, hw⟩ := h
+  have hm := ratIn_iff.1 hw
+  obtain ⟨z, hz, -, hz0⟩ := exists_zero_of_certX ((pointConsts_eq eqs).symm.trans hpc) hex (castL w)
+    hm.length_eq (fun i t I _ ht hI => (forall₂_iff_getElem?.1 hm).2 i t I ht hI)
+  exact ⟨z, Box.subset_sound hsub hz, hz0⟩
+
+section ExamplesX
+open Ibex.C06 (sq4)
+
+/-- the box `[1, 2]` contains a zero of `x² − 2`: exact Krawczyk on the sub-box of 2 ulps around
+    `1.4142135623730951` (`w` = its midpoint); the rounded rule does not decide -/
+example : hasZeroByX [([], sqDag)] [I 1 2] [B52 6369051672525772 6369051672525774] [0]
+    [6369051672525773 / (2 ^ 52 : ℕ)] = true := by decide +kernel
+example : hasZeroBy [([], sqDag)] [I 1 2] [B52 6369051672525772 6369051672525774] [0]
+    [6369051672525773 / (2 ^ 52 : ℕ)] = false := by decide +kernel
+example : ∃ p, Box.Mem p [I 1 2] ∧ Zero [([], sqDag)] p :=
+  hasZeroByX_sound (x := [B52 6369051672525772 6369051672525774]) (vars := [0])
+    (w := [6369051672525773 / (2 ^ 52 : ℕ)]) (by decide +kernel)
+example : hasZeroByX [([], sq4)] [I 1 3] [I (15/8) (17/8)] [0] [2] = true := by decide +kernel
+/-- a contraction `[1,3] ↦ [15/8, 17/8]` of `x² − 4 = 0` keeps all zeros; `[−3,3]` has two zeros: not certified -/
+example : keptAllByX [([], sq4)] [I 1 3] [I (15/8) (17/8)] [2] = true := by decide +kernel
+example : keptAllByX [([], sq4)] [I (-3) 3] [I (15/8) (17/8)] [2] = false := by decide +kernel
+
+end ExamplesX
+
 end Ibex.C09
